@@ -166,4 +166,24 @@ theorem djSpec_RxSO3_closed (eps : ℝ) (heps : 0 ≤ eps) (φ0 p0 : DVec ℝ) (
     obtain ⟨e0, e1, e2⟩ := heq
     refine ⟨by linarith, by linarith, by linarith⟩
 
+/-! ## pass 11: the hypothesis `sin(θ/2) ≠ 0` replaced by the natural guard `θ < 2π` -/
+
+theorem sin_half_ne_of_lt_two_pi (eps th : ℝ) (h0 : 0 ≤ eps) (h : eps < th) (h2 : th < 2 * Real.pi) : Real.sin (1/2 * th) ≠ 0 := by
+  have hp := pos_of_eps_lt h0 h
+  exact ne_of_gt (Real.sin_pos_of_pos_of_lt_pi (by positivity) (by linarith))
+
+/-- `so3_Jl` and `so3_Jl_inv` are inverse to each other (both orders) for every rotation vector with `eps < θ < 2π` -/
+theorem so3Jl_JlInv_inverse_pair (eps : ℝ) (x : Vec3 ℝ) (h0 : 0 ≤ eps) (h : eps < x.norm) (h2 : x.norm < 2 * Real.pi) :
+    (so3Jl eps x).mul (so3JlInv eps x) = Mat3.one ∧ (so3JlInv eps x).mul (so3Jl eps x) = Mat3.one :=
+  ⟨so3Jl_mul_so3JlInv eps x h h0 (sin_half_ne_of_lt_two_pi eps _ h0 h h2), so3JlInv_mul_so3Jl eps x h h0 (sin_half_ne_of_lt_two_pi eps _ h0 h h2)⟩
+
+/-- `SE3_Log.backward` is the true derivative whenever the rotation part of `Log X` has `max(eps, 0.05) < θ < 2π` (regime 1 of `SO3_Log`) -/
+theorem SE3Log_tangent_lt_two_pi (eps : ℝ) (heps : 0 ≤ eps) (X : ℝ → DVec ℝ) (a0 a1 a2 a3 a4 a5 : ℝ)
+    (hX : LCurve 7 X (liftG .SE3 (X 0) [a0, a1, a2, a3, a4, a5])) (hu : (qt (X 0) 3).normSq = 1)
+    (hv : eps < (qt (X 0) 3).vec.norm) (hw : eps < |(qt (X 0) 3).w|)
+    (hφ : eps < (v3 (logF .SE3 eps (X 0)) 3).norm) (hq : (5:ℝ)/100 < (v3 (logF .SE3 eps (X 0)) 3).norm)
+    (h2 : (v3 (logF .SE3 eps (X 0)) 3).norm < 2 * Real.pi) :
+    LCurve 6 (fun t => logF .SE3 eps (X t)) ((JlInvMat .SE3 eps (logF .SE3 eps (X 0))).mulVec [a0, a1, a2, a3, a4, a5]) :=
+  SE3Log_tangent eps heps X a0 a1 a2 a3 a4 a5 hX hu hv hw hφ hq (sin_half_ne_of_lt_two_pi eps _ heps hφ h2)
+
 end PP.AD
